@@ -335,14 +335,13 @@ impl<'r> Gen<'r> {
             Type::CharString { cs, size } if self.cfg.rich_defaults => {
                 let (lb, ub) = size_lit_bounds(size)?;
                 let n = lb.max(2.min(ub)) as usize;
+                // '"' ends the literal; "--" and "/*" are comments to the tokenizer even inside a literal (not generated)
                 let alpha: Vec<char> = cs
                     .alphabet()
                     .into_iter()
-                    .filter(|c| c.is_ascii_alphanumeric() || *c == ' ')
+                    .filter(|c| c.is_ascii_alphanumeric() || " (),.:=+?".contains(*c))
                     .collect();
                 let s: String = (0..n).map(|_| *self.rng.pick(&alpha)).collect();
-                // no leading/trailing/double blanks: the tokenizer based string reconstruction cannot keep them
-                let s = s.trim().replace("  ", " x");
                 if (s.chars().count() as u64) < lb || s.chars().count() as u64 > ub {
                     return None;
                 }
@@ -461,7 +460,8 @@ impl<'r> Gen<'r> {
             1 => 1,
             _ => self.rng.range(1, self.cfg.max_fanout as u64) as usize,
         };
-        let next = if self.cfg.extensions && self.rng.chance(1, 3) { Some(self.rng.range(0, 3) as usize) } else { None };
+        // the front end rejects an extension marker before the first component (recorded in known_findings.json as fixed)
+        let next = if self.cfg.extensions && n > 0 && self.rng.chance(1, 3) { Some(self.rng.range(0, 3) as usize) } else { None };
         let names = self.idents(n + next.unwrap_or(0));
         let tagged = self.cfg.explicit_tags && self.rng.chance(1, 5);
         let mut used_tags: Vec<Tag> = Vec::new();
